@@ -1,5 +1,6 @@
 """Which units decide which property."""
-from props import ArmsKaniUnit, KaniUnit
+from props import ArmsKaniUnit, JitKaniUnit, KaniUnit
+from ex_units import JitSmtUnit
 from tv_units import AllocTVUnit, FlattenTVUnit, SimplifyTVUnit, BytecodeTVUnit
 
 LIBM_STUBS = [
@@ -34,7 +35,17 @@ def arms(prefix, fn):
                         LIBM_ASSUME + ARM_ASSUME, LIBM_STUBS)
 
 
+EX_ASSUME = ["objdump's x86-64 decoder, the lifter and the x86rt machine model are trusted; they are validated on every run by executing "
+             "the lifted code natively on garbage register files against the actual JIT function on this CPU",
+             "out-of-line callbacks are identified by evaluating them natively and replaced by the identified Rust function plus the SysV "
+             "clobber model (all caller-saved GPRs, all vector registers and flags become arbitrary)",
+             "x86-64 only (aarch64 code is not compiled on this machine)"]
+
 PROPS = {
+    "C02": {
+        "level": "model_checking",
+        "units": [JitSmtUnit(["point"])],
+    },
     "C15": {
         "level": "translation_validation",
         "units": [BytecodeTVUnit()],
